@@ -181,7 +181,12 @@ class _Stmts(ast.NodeTransformer):
                 _is_path(value.values[0]):
             test, a, b = copy.deepcopy(value.values[0]), value.values[0], value.values[1]
         else:
-            return None
+            # a conditional deeper in the expression, with nothing but plain paths evaluated before it:
+            #   (A if c else B).reshape(s)  ->  A.reshape(s) if c else B.reshape(s) ;   f(p, A if c else B)
+            h = _hoist_cond(value)
+            if h is None:
+                return None
+            test, a, b = h
         self.changed = True
         t = rebuild(a)
         f = rebuild(b)
@@ -290,6 +295,86 @@ class _Stmts(ast.NodeTransformer):
                 self.changed = True
                 return [ast.copy_location(ast.Assign(targets=[t], value=v), node) for t, v in zip(ts, vs)]
         return node
+
+
+def _hoist_cond(value, depth=0):
+    """-> (test, value with the first arm, value with the second arm) for a conditional expression (or `P or B`
+    with P a path) that is the first thing with an effect that `value` evaluates; None otherwise"""
+    if depth > 3:
+        return None
+
+    def cond_of(e):
+        if isinstance(e, ast.IfExp):
+            return e.test, e.body, e.orelse
+        if isinstance(e, ast.BoolOp) and isinstance(e.op, ast.Or) and len(e.values) == 2 and _is_path(e.values[0]):
+            return copy.deepcopy(e.values[0]), e.values[0], e.values[1]
+        return None
+
+    def pure(e):
+        return isinstance(e, ast.Constant) or _is_path(e) or \
+            (isinstance(e, ast.UnaryOp) and pure(e.operand)) or \
+            (isinstance(e, (ast.Tuple, ast.List)) and all(pure(x) for x in e.elts))
+
+    def rebuild(parent, field, index, new):
+        cp = copy.copy(parent)
+        if index is None:
+            setattr(cp, field, new)
+        else:
+            lst = list(getattr(parent, field))
+            lst[index] = new
+            setattr(cp, field, lst)
+        return cp
+
+    # the evaluation order of the direct sub-expressions
+    slots = []
+    if isinstance(value, ast.Call):
+        if isinstance(value.func, ast.Attribute):
+            slots.append((value.func, 'value', None, value.func.value, 'func'))
+        elif not pure(value.func):
+            return None
+        for i, a_ in enumerate(value.args):
+            slots.append((value, 'args', i, a_, None))
+        for i, k_ in enumerate(value.keywords):
+            slots.append((k_, 'value', None, k_.value, ('kw', i)))
+    elif isinstance(value, ast.BinOp):
+        slots = [(value, 'left', None, value.left, None), (value, 'right', None, value.right, None)]
+    elif isinstance(value, ast.UnaryOp):
+        slots = [(value, 'operand', None, value.operand, None)]
+    elif isinstance(value, ast.Attribute):
+        slots = [(value, 'value', None, value.value, None)]
+    elif isinstance(value, ast.Subscript):
+        slots = [(value, 'value', None, value.value, None)]
+    else:
+        return None
+    for parent, field, index, sub, how in slots:
+        if isinstance(sub, ast.Starred):
+            return None
+        c = cond_of(sub)
+        inner = None if c is not None else _hoist_cond(sub, depth + 1)
+        if c is None and inner is None:
+            if pure(sub):
+                continue
+            return None             # something with a possible effect is evaluated first
+        test, a, b = c if c is not None else inner
+        outs = []
+        for arm in (a, b):
+            if how == 'func':
+                f2 = copy.copy(value.func)
+                f2.value = arm
+                v2 = copy.copy(value)
+                v2.func = f2
+            elif isinstance(how, tuple):
+                k2 = copy.copy(parent)
+                k2.value = arm
+                v2 = copy.copy(value)
+                kws = list(value.keywords)
+                kws[how[1]] = k2
+                v2.keywords = kws
+            else:
+                v2 = rebuild(value, field, index, arm)
+            outs.append(copy.deepcopy(v2))
+        return test, outs[0], outs[1]
+    return None
 
 
 def _attrs_stored(targets):
@@ -644,6 +729,7 @@ def normalize_function(fn, resolver=None, list_attrs=frozenset(), consts=None, c
         new.body = _drop_defs(new.body, {id(single[k]) for k in table})
         changed = True
     # N17, N15 / N16
+    changed |= _field_readback(new)
     changed |= _paired_temps(new)
     changed |= _sink_consumer(new)
     ch15 = _return_temps(new)
@@ -861,6 +947,55 @@ def _pure_value(e):
     if isinstance(e, ast.UnaryOp) and isinstance(e.op, ast.USub):
         e = e.operand
     return isinstance(e, ast.Constant) or _is_path(e)
+
+
+def _field_readback(fn):
+    """N25  self.f = p ... self.f   ->  ... p      in the straight-line top level of a method, where p is a
+    parameter that is never rebound (the constructor idiom  self.shape = self.const.shape)"""
+    a = fn.args.posonlyargs + fn.args.args
+    if not a or a[0].arg != 'self':
+        return False
+    counts, _single = _binding_counts(fn)
+    params = {x.arg for x in a[1:] + fn.args.kwonlyargs if counts.get(x.arg) == 2}
+    if not params:
+        return False
+    known = {}
+    changed = [False]
+
+    class _R(ast.NodeTransformer):
+        def visit_FunctionDef(self, node):
+            return node
+        visit_AsyncFunctionDef = visit_Lambda = visit_ClassDef = visit_FunctionDef
+
+        def visit_Attribute(self, node):
+            if isinstance(node.ctx, ast.Load) and isinstance(node.value, ast.Name) and node.value.id == 'self' and \
+                    node.attr in known:
+                changed[0] = True
+                return ast.copy_location(ast.Name(id=known[node.attr], ctx=ast.Load()), node)
+            self.generic_visit(node)
+            return node
+
+    for i, st in enumerate(fn.body):
+        stored = {n.attr for n in ast.walk(st) if isinstance(n, ast.Attribute) and isinstance(n.ctx, (ast.Store, ast.Del))
+                  and isinstance(n.value, ast.Name) and n.value.id == 'self'}
+        if isinstance(st, ast.Assign) and len(st.targets) == 1:
+            st.value = _R().visit(st.value)
+            t = st.targets[0]
+            if isinstance(t, ast.Attribute) and isinstance(t.value, ast.Name) and t.value.id == 'self':
+                if isinstance(st.value, ast.Name) and st.value.id in params:
+                    known[t.attr] = st.value.id
+                else:
+                    known.pop(t.attr, None)
+                continue
+        elif isinstance(st, (ast.Expr, ast.Return)) and not stored:
+            fn.body[i] = _R().visit(st)
+            continue
+        # anything else: forget what it may store, and everything if it may call back into the object
+        for k in stored:
+            known.pop(k, None)
+        if not isinstance(st, (ast.Assign, ast.AugAssign, ast.Expr, ast.Pass)):
+            known.clear()
+    return changed[0]
 
 
 def _return_temps(fn):
